@@ -462,8 +462,25 @@ func (w *World) Fetch(t *rapid.T, s *Sess) *imapc.Result {
 	item := pick(t, "fitem", items)
 	w.Label("op:fetch")
 
-	if item == "BODY[]" || item == "RFC822" || item == "BODY[TEXT]" {
+	// sometimes several items in one command (FLAGS together with an item that sets \Seen, in either order)
+	if rapid.IntRange(0, 2).Draw(t, "combine") == 0 {
+		parts := []string{strings.Trim(item, "()")}
+
+		for i, n := 0, rapid.IntRange(1, 2).Draw(t, "more"); i < n; i++ {
+			parts = append(parts, strings.Trim(pick(t, "fitem", items), "()"))
+		}
+
+		item = "(" + strings.Join(parts, " ") + ")"
+
+		w.Label("op:fetch.combined")
+	}
+
+	if strings.Contains(item, "BODY[]") || strings.Contains(item, "RFC822") && !strings.Contains(item, "RFC822.SIZE") || strings.Contains(item, "BODY[TEXT]") {
 		w.Label("op:fetch.seen")
+
+		if strings.Contains(item, "FLAGS") {
+			w.Label("op:fetch.seen+flags")
+		}
 	}
 
 	return s.Do(fmt.Sprintf("%sFETCH %s %s", rg.Prefix(), rg.Text, item))
@@ -718,7 +735,7 @@ func (w *World) ConnBoxes(t *rapid.T) vconn.Delivery {
 			m.Boxes[b] = true
 		}
 
-		flags = m.Flags.Clone()
+		flags = vconn.RemoteFlags(m.Flags)
 	})
 	w.Label("conn:boxes")
 
